@@ -263,7 +263,13 @@ class Engine:
         self.fn, self.cls = self.src.find(qualname)
         self.contracts = contracts; self.classes = classes; self.fc = fc
         self.plugins = list(plugins)
-        loops = [n for n in ast.walk(self.fn) if isinstance(n, (ast.For, ast.While))]
+        def own_nodes(fn):       # the statements of this function, not those of functions defined inside it (they are units of their own)
+            todo = list(fn.body)
+            while todo:
+                n = todo.pop()
+                yield n
+                if not isinstance(n, (ast.FunctionDef, ast.Lambda)): todo.extend(ast.iter_child_nodes(n))
+        loops = [n for n in own_nodes(self.fn) if isinstance(n, (ast.For, ast.While))]
         # ordinal = syntactic order (line, column), not ast.walk's breadth-first order
         loops.sort(key=lambda n: (n.lineno, n.col_offset))
         self.loop_ids = {id(n): k for k, n in enumerate(loops)}
@@ -958,6 +964,7 @@ class Engine:
             if isinstance(seq, Raise): out.append((s0, seq)); continue
             if not seq.s.is_list: raise Unsupported(f'for over {seq.s} @{stmt.lineno}')
             s0.env[idx] = V(IntVal(0), INT)
+            s0.env[f'_seq{k}'] = seq                       # the sequence being iterated (evaluated once), for invariants over an unnamed iterable
             s0.assume(seq.s.len(seq.e) >= 0)
 
             def guard(s, seq=seq): return [(s, s.env[idx].e < seq.s.len(seq.e))]
